@@ -8,9 +8,10 @@ package cache
 // C10: "not stored at all when that lifetime is zero or negative" - every Set in heimdall must
 // pass a positive TTL (ttlcache keeps an entry with ttl <= 0 forever).
 //@ iface (Cache).Set
+//@   logged cset
 //@   requires ttl > 0
 
 // C05: which keys come from the cache (ghost log cget)
 //@ iface (Cache).Get
-//@   props C05
+//@   props C05 C11
 //@   logged cget
